@@ -1,19 +1,32 @@
-import subprocess, json, os
-WT="/tmp/wt_dev"
+import subprocess, json, os, sys
+WT=os.environ.get("HS_WT","/tmp/wt_dev"); DEV=os.environ.get("HS_DEV","/tmp/vdev")
 def sh(c): return subprocess.run(c, shell=True, stdout=subprocess.PIPE, stderr=subprocess.STDOUT).stdout.decode()
 MUTS=[("h1 getinputmode 8 == len(data)","src/pyubx2/ubxhelpers.py","len(data) == 8","8 == len(data)"),
 ("h2 rtcm3 lor swapped","src/pyubx2/ubxreader.py","size = hdr3[0] | (hdr[1] << 8)","size = (hdr[1] << 8) | hdr3[0]"),
 ("h3 _recv not data","src/pyubx2/socket_wrapper.py","            if len(data) == 0:\n                return False","            if not data:\n                return False"),
 ("h4 parse hdr test swapped","src/pyubx2/ubxreader.py","            if hdr != UBX_HDR:","            if UBX_HDR != hdr:"),
 ("h5 read elif byte1 d3 swapped","src/pyubx2/ubxreader.py","elif byte1 == b\"\\xd3\" and (byte2[0] & ~0x03) == 0:","elif (byte2[0] & ~0x03) == 0 and byte1 == b\"\\xd3\":"),
+("h6 parse lenb test swapped","src/pyubx2/ubxreader.py",'if lenb == b"\\x00\\x00":','if b"\\x00\\x00" == lenb:'),
+("h7 parse ckm ckv swapped","src/pyubx2/ubxreader.py","if ckm != ckv:","if ckv != ckm:"),
+("h8 parse length test swapped","src/pyubx2/ubxreader.py","if lenm - 8 != bytes2val(lenb, U2):","if bytes2val(lenb, U2) != lenm - 8:"),
+("h9 parse validate mask swapped","src/pyubx2/ubxreader.py","if validate & VALCKSUM:","if VALCKSUM & validate:"),
+("h10 identity conjuncts swapped","src/pyubx2/ubxmessage.py",'if self._ubxClass == b"\\x13" and self._ubxID != b"\\x80":','if self._ubxID != b"\\x80" and self._ubxClass == b"\\x13":'),
+("h11 sock read while test swapped","src/pyubx2/socket_wrapper.py","while len(self._buffer) < num:","while num > len(self._buffer):"),
+("h12 readline LF test swapped","src/pyubx2/socket_wrapper.py",'if line[-1:] == b"\\n":','if b"\\n" == line[-1:]:'),
+("h13 readline len test swapped","src/pyubx2/socket_wrapper.py","            if len(data) == 1:","            if 1 == len(data):"),
+("h14 _read_bytes chain reversed","src/pyubx2/ubxreader.py","if 0 < len(data) < size:","if size > len(data) > 0:"),
+("h15 read preamble tuple reordered","src/pyubx2/ubxreader.py",'if byte1 not in (b"\\xb5", b"\\x24", b"\\xd3"):','if byte1 not in (b"\\x24", b"\\xd3", b"\\xb5"):'),
+("h16 _do_error test swapped","src/pyubx2/ubxreader.py","if self._quitonerror == ERR_RAISE:","if ERR_RAISE == self._quitonerror:"),
+("h17 _read_bytes eof test swapped","src/pyubx2/ubxreader.py","        if len(data) == 0:  # EOF","        if 0 == len(data):  # EOF"),
 ]
+if len(sys.argv)>1: MUTS=[m for m in MUTS if m[0].split()[0] in sys.argv[1:]]
 for name,f,a,b in MUTS:
     sh("git -C %s checkout -q -- ."%WT)
     p=os.path.join(WT,f); s=open(p,newline='').read(); crlf="\r\n" in s; t=s.replace("\r\n","\n")
     if a not in t: print((name,"PATTERN NOT FOUND"),flush=True); continue
     t=t.replace(a,b,1); t=t.replace("\n","\r\n") if crlf else t; open(p,'w',newline='').write(t)
-    o=sh("cd /tmp/vdev && VERIF_REPO=%s timeout 3000 /venv/bin/python harness/setup.py 2>&1 | tail -3"%WT)
-    rep=json.load(open('/tmp/vdev/coq/gen/translate_report.json'))
+    o=sh("cd %s && VERIF_REPO=%s timeout 3000 /venv/bin/python harness/setup.py 2>&1 | tail -3"%(DEV,WT))
+    rep=json.load(open(DEV+'/coq/gen/translate_report.json'))
     line=[l for l in o.splitlines() if l.startswith("build ok")]
     print((name, line[-1] if line else o[-200:], {**rep.get("py2coq",{}).get("untranslated",{}), **rep.get("py2coq_io",{}).get("untranslated",{})}),flush=True)
 sh("git -C %s checkout -q -- ."%WT)
